@@ -1,4 +1,5 @@
 import CoapVerif.Model.Parse
+import CoapVerif.Generated.Consts
 /-
 M — the receive gate: what libcoap does with one received unit *before* the protocol layer sees it.
 
@@ -48,5 +49,16 @@ def gate (p : Proto) (bs : Bytes) : Action :=
     match parse .tcp bs with
     | R.ok m => .dispatch m
     | _ => .bad
+
+/-- The gate of a live datagram session: `coap_handle_dgram` allocates the PDU with
+`coap_session_max_pdu_rcv_size(session)` = MTU − 4, so `coap_pdu_parse` refuses (in `coap_pdu_resize`) a datagram
+longer than the session MTU *before* the header is parsed — the Reset then carries message id 0. -/
+def gateMtu (mtu : Nat) (bs : Bytes) : Action :=
+  match gate .udp bs with
+  | .drop => .drop
+  | a => if bs.length > mtu then .rst 0 else a
+
+/-- session MTU as configured by default (T1: COAP_DEFAULT_MTU of the current tree) -/
+def gateDefault (bs : Bytes) : Action := gateMtu Generated.Consts.COAP_DEFAULT_MTU bs
 
 end Coap.M
